@@ -8,6 +8,8 @@
                                                      before each insertion vs the tree right after it (printed once per load, before "wf")
      "meminserts ok n=<calls>" | "meminserts DIFF call=<k> ..."  model of hwloc__find_insert_memory_parent and hwloc___attach_memory_object_by_nodeset
                                                      (Topo/MemAttach.v) on the trees right before/after each call
+     "synthreq ok n=<requests>" | "synthreq DIFF ..."  model of the synthetic backend (Text/Synthetic.v parser + Topo/SynthBuild.v) vs the
+                                                     objects the backend really hands to the core, in order (synthetic sources with insertion tracing)
      "merge ok" | "merge DIFF"                       model of load-time KEEP_STRUCTURE level merging on the phase-4 tree vs the phase-5 tree
      "removal ok" | "removal DIFF"                   model of hwloc_filter_bridges + remove_empty on the phase-3 tree vs the phase-4 tree
    other lines are echoed *)
@@ -21,6 +23,13 @@ let p4 : (dump * n list) option ref = ref None
 let p12 = ref None and p14 = ref None
 let ins_calls = ref 0 and ins_bad = ref []
 let mem_calls = ref 0 and mem_bad = ref []
+(* requests issued by the synthetic backend: insertions that start at the root (phase 10, not inside a memory-parent
+   search) and memory insertions (phase 12), in order *)
+let synth_desc : Stdlib.String.t option ref = ref None
+let synth_obs = ref [] and in_find_parent = ref false and synth_pending = ref false
+let obs_of (d : dobj) = (((d.o_type, d.o_os), (d.o_cs, d.o_nds)), (d.o_lm, d.o_cache_depth))
+let rec int_of_nat = function O -> 0 | S n -> 1 + int_of_nat n
+let bytes_of_string s = Stdlib.List.init (Stdlib.String.length s + 1) (fun i -> if i < Stdlib.String.length s then n_of_int (Stdlib.Char.code s.[i]) else n_of_int 0)
 let contains s sub = let n = Stdlib.String.length s and m = Stdlib.String.length sub in let rec go i = i + m <= n && (Stdlib.String.sub s i m = sub || go (i + 1)) in go 0
 let () =
   read_blocks stdin
@@ -43,7 +52,11 @@ let () =
               let dm = ref [] in
               Stdlib.Array.iteri (fun i l -> if contains l "gdontmerge:1" then dm := n_of_int i :: !dm) p.raw_objs;
               p4 := Some (p.pd, !dm)
-       | 10 -> p10 := Some p
+       | 10 -> p10 := Some p;
+               (if !synth_desc <> None && not !in_find_parent then
+                  let h = kv_tbl (split_on ' ' p.raw_head) in
+                  if Stdlib.Hashtbl.find h "insroot" = "0" then
+                    synth_obs := obs_of (Stdlib.List.nth p.pd.t_objs (int_of_string (Stdlib.Hashtbl.find h "ins"))) :: !synth_obs)
        | 11 -> (match !p10 with
                 | Some b ->
                     let h = kv_tbl (split_on ' ' b.raw_head) and h2 = kv_tbl (split_on ' ' p.raw_head) in
@@ -57,7 +70,10 @@ let () =
                     if not (insert_tie b.pd p.pd (n_of_int ins) (n_of_int root) !dms dm_new (Stdlib.Hashtbl.find h2 "same" = "1") (res = "-"))
                     then ins_bad := (!ins_calls, b.raw_objs.(ins)) :: !ins_bad
                 | None -> ()); p10 := None
-       | 12 -> p12 := Some p
+       | 12 -> p12 := Some p; in_find_parent := true;
+               (if !synth_desc <> None then
+                  let h = kv_tbl (split_on ' ' p.raw_head) in
+                  synth_obs := obs_of (Stdlib.List.nth p.pd.t_objs (int_of_string (Stdlib.Hashtbl.find h "ins"))) :: !synth_obs)
        | 13 -> (match !p12 with
                 | Some b ->
                     let h = kv_tbl (split_on ' ' b.raw_head) and h2 = kv_tbl (split_on ' ' p.raw_head) in
@@ -68,7 +84,7 @@ let () =
                     incr mem_calls;
                     if par = "-" || par = "?" || not (find_parent_tie b.pd p.pd (n_of_int ins) (n_of_int (int_of_string par)) !dms)
                     then mem_bad := (!mem_calls, "find_insert_memory_parent " ^ b.raw_objs.(ins)) :: !mem_bad
-                | None -> ()); p12 := None
+                | None -> ()); p12 := None; in_find_parent := false
        | 14 -> p14 := Some p
        | 15 -> (match !p14 with
                 | Some b ->
@@ -93,6 +109,14 @@ let () =
             | l -> let (k, raw) = Stdlib.List.hd (Stdlib.List.rev l) in
                    print_endline ("meminserts DIFF call=" ^ string_of_int k ^ " of " ^ string_of_int !mem_calls ^ " bad=" ^ string_of_int (Stdlib.List.length l) ^ " " ^ raw)));
          mem_calls := 0; mem_bad := [];
+         (match !synth_desc with
+          | Some dsc ->
+              (match synth_requests_diff (bytes_of_string dsc) p.pd.t_filters (Stdlib.List.rev !synth_obs) with
+               | Some None -> print_endline ("synthreq ok n=" ^ string_of_int (Stdlib.List.length !synth_obs))
+               | Some (Some k) -> print_endline ("synthreq DIFF first=" ^ string_of_int (int_of_nat k) ^ " of " ^ string_of_int (Stdlib.List.length !synth_obs))
+               | None -> print_endline "synthreq DIFF model-rejects-description")
+          | None -> ());
+         synth_desc := None; synth_obs := []; in_find_parent := false;
          (match wf_check p.pd with
           | [] -> print_endline "wf ok"
           | vs -> print_endline ("wf VIOLATION " ^ Stdlib.String.concat " " (Stdlib.List.map (fun (c, i) -> ocaml_of_coq_string c ^ "@" ^ string_of_int (int_of_n i)) vs)));
@@ -105,4 +129,7 @@ let () =
                         | None -> print_endline "totals DIFF tree")
           | None -> ()); p5 := None
        | _ -> ())
-    (fun l -> if l = "new rc=0" then (p1 := None; p5 := None; p3 := None; p4 := None; p10 := None; p12 := None; p14 := None; ins_calls := 0; ins_bad := []; mem_calls := 0; mem_bad := []); print_endline l)
+    (fun l -> (if Stdlib.String.length l > 10 && Stdlib.String.sub l 0 10 = "synthdesc " then (synth_desc := Some (Stdlib.String.sub l 10 (Stdlib.String.length l - 10)); synth_obs := []; synth_pending := true)
+               else if !synth_pending && Stdlib.String.length l >= 10 && Stdlib.String.sub l 0 10 = "config rc=" then
+                 (synth_pending := false; if l <> "config rc=0" then synth_desc := None));   (* hwloc_topology_set_synthetic refused the description *)
+              if l = "new rc=0" then (synth_desc := None; synth_obs := []; in_find_parent := false; p1 := None; p5 := None; p3 := None; p4 := None; p10 := None; p12 := None; p14 := None; ins_calls := 0; ins_bad := []; mem_calls := 0; mem_bad := []); print_endline l)
